@@ -4,6 +4,7 @@ import (
 	"go/constant"
 	"go/token"
 	"go/types"
+	"strings"
 
 	"golang.org/x/tools/go/ssa"
 )
@@ -205,6 +206,11 @@ func checkC05(e *Engine, r *Report) {
 			}
 		})
 		r.Check(okP, "NewStateTransition › gasPrice ← msg.GasPrice()", e.Pos(nst.Pos()), "st.gasPrice = msg.GasPrice()", "the refund price is not the message's effective gas price")
+	})
+
+	r.Rule("R8", "CENSUS-ORDER", "the flags and per-transaction records that decide the refund (sender-paid-fee, gas slots) are not keyed by the transaction index before the transaction is counted: counter-dependent ante decorators come after SetupExecutionContext (shared with C13-R8)", 1, func() {
+		n, probs := txIndexUsedOnlyAfterCounting(e)
+		r.Check(len(probs) == 0 && n > 0, "ante chain › tx index used only after counting", e.Pos(applyTx.Pos()), itoa(n)+" counter-dependent decorator(s), all after SetupExecutionContext", "a value the refund depends on is stored under the previous transaction's index: from the second Ethereum transaction of a block on, the sender is not paid back the unused gas (charged gas limit × price): "+strings.Join(probs, "; "))
 	})
 
 	r.Rule("R2", "PAIR", "in ApplyTransaction every return reachable after ApplyMessageWithConfig passes exactly one ResetGasMeterAndConsumeGas on the tx context: with ctx.GasMeter().Limit() on the error edge, with res.GasUsed on the success edge", 2, func() {
